@@ -7,7 +7,7 @@ import numpy as np
 
 from .. import alph
 from .. import oracles as O
-from ..core import CaseResult, twice
+from ..core import CaseResult, twice, variants
 
 PROP = "C01"
 LEVEL = "exploration"
@@ -22,8 +22,8 @@ ASSUMPTIONS = ["tolerance 1e-9 relative x 1/Gram determinant (the conditioning o
 def cases(tier, seed):
     cs = []
     for mod in ("tools", "laue"):
-        for cell in alph.cells(tier):
-            cs.append({"mod": mod, "cell": cell, "tier": tier})
+        for i, cell in enumerate(alph.cells(tier)):
+            cs.append({"mod": mod, "cell": cell, "tier": tier, "index": i})
     return cs
 
 
@@ -137,6 +137,19 @@ def check_case(case):
         r.check("sintl look-alike arrays", abs(float(out) - ref) / ref, tol, key + ":sintl:look-alike-ndarray", "sintl of an ndarray cell after another ndarray cell that prints the same", ref, float(out))
     finally:
         np.set_printoptions(**old)
+    # argument kinds x call forms: the cell as tuple / ndarray / strided view / float32 and - when its six parameters are whole
+    # numbers, the way users type them - as ints and integer arrays; positionally and by keyword.  Every cell with whole-number
+    # parameters, and every fourth other cell.
+    whole = all(float(x).is_integer() for x in cell)
+    if whole or case.get("index", 0) % 4 == 0:
+        ts = 2e-5 / gd
+        for fname in ("form_a_mat", "form_b_mat", "cell_volume", "cell_invert", "form_a_mat_inv"):
+            variants(r, key + ":" + fname, getattr(mod, fname), [cell], 0, tol, ts)
+        for h in ((1, 2, -3), (0, 0, 2)):
+            variants(r, key + ":sintl:h=%s" % (h,), mod.sintl, [cell, list(h)], 0, tol, ts)
+            variants(r, key + ":sintl:h=%s" % (h,), mod.sintl, [cell, list(h)], 1, tol, ts)
+        variants(r, key + ":a_to_cell", mod.a_to_cell, [A], 0, tol * 100, 2e-4 / gd, dev=lambda a, b: O.cell_dev(b, a))
+        variants(r, key + ":b_to_cell", mod.b_to_cell, [B], 0, tol * 100, 2e-4 / gd, dev=lambda a, b: O.cell_dev(b, a))
     if any(x != 90 for x in cell[3:]):
         r.nontrivial.add("%s:%s" % (mname, cell))
     return r
